@@ -16,6 +16,8 @@ enum Beh {
     DropPort,
     ReplyFromTask,
     ErrBeforeReply,
+    /// the handler never returns (it keeps the port and awaits forever): only a kill ends it
+    Stuck,
 }
 
 #[cfg(feature = "alt")]
@@ -73,6 +75,10 @@ impl Actor for Callee {
                         });
                     }
                     Beh::ErrBeforeReply => return Err("callee failed".into()),
+                    Beh::Stuck => {
+                        held.push(reply);
+                        std::future::pending::<()>().await;
+                    }
                 }
             }
         }
@@ -86,6 +92,9 @@ enum Exit {
     Stop,
     Kill,
     Drain,
+    /// a graceful request first, then the kill (escalation)
+    StopThenKill,
+    DrainThenKill,
 }
 
 #[derive(Clone, Debug)]
@@ -127,6 +136,16 @@ fn call_body(sc: Sc) -> vsched::Body {
                     Exit::Kill => c2.kill(),
                     Exit::Drain => {
                         let _ = c2.drain();
+                    }
+                    Exit::StopThenKill => {
+                        c2.stop(None);
+                        vsched::yield_now().await;
+                        c2.kill();
+                    }
+                    Exit::DrainThenKill => {
+                        let _ = c2.drain();
+                        vsched::yield_now().await;
+                        c2.kill();
                     }
                 }
             });
@@ -180,7 +199,7 @@ fn call_body(sc: Sc) -> vsched::Body {
                                 bad.push(format!("call {id} ({beh:?}, no exit, no timeout) ended as {r}"));
                             }
                         }
-                        Beh::DropPort | Beh::Hold | Beh::ErrBeforeReply => {
+                        Beh::DropPort | Beh::Hold | Beh::ErrBeforeReply | Beh::Stuck => {
                             if r.starts_with("success") || r == "timeout" {
                                 bad.push(format!("call {id} ({beh:?}) ended as {r}"));
                             }
@@ -308,6 +327,16 @@ fn forward_body(beh: Beh, timeout: Option<u64>, exit: Exit) -> vsched::Body {
                     Exit::Drain => {
                         let _ = c2.drain();
                     }
+                    Exit::StopThenKill => {
+                        c2.stop(None);
+                        vsched::yield_now().await;
+                        c2.kill();
+                    }
+                    Exit::DrainThenKill => {
+                        let _ = c2.drain();
+                        vsched::yield_now().await;
+                        c2.kill();
+                    }
                 }
             });
             let _ = closer.await;
@@ -373,6 +402,12 @@ pub fn plan(tier: &str) -> Plan {
     for (d, t) in [(3u64, 5u64), (5, 5), (7, 5)] {
         scs.push((format!("timeout/d{d}-T{t}"), Sc { callers: vec![(Beh::ReplyAfterMs(d), Some(t)), (Beh::Hold, Some(t))], exit: Exit::None }));
     }
+    // escalation: a graceful request, then a kill, with a handler that never returns: every caller must be
+    // released (SenderError), the one being handled and the ones still queued
+    for exit in [Exit::StopThenKill, Exit::DrainThenKill] {
+        scs.push((format!("escalation/{exit:?}/stuck+queued"), Sc { callers: vec![(Beh::Stuck, None), (Beh::ReplyNow, None), (Beh::Hold, None)], exit }));
+        scs.push((format!("escalation/{exit:?}/slow+now"), Sc { callers: vec![(Beh::ReplyAfterMs(5), None), (Beh::ReplyNow, Some(20))], exit }));
+    }
     // the zero timeout: an answer (possibly Timeout) at once, whatever the callee does with the port
     scs.push(("timeout/zero/hold+late+now".into(), Sc { callers: vec![(Beh::Hold, Some(0)), (Beh::ReplyAfterMs(5), Some(0)), (Beh::ReplyNow, Some(0))], exit: Exit::None }));
     scs.push(("timeout/zero/hold-vs-kill".into(), Sc { callers: vec![(Beh::Hold, Some(0)), (Beh::ReplyFromTask, Some(0))], exit: Exit::Kill }));
@@ -401,7 +436,7 @@ pub fn plan(tier: &str) -> Plan {
     Plan {
         property: "C09",
         units,
-        rule: "1-3 concurrent callers x callee behaviour (reply now / after d / from a spawned task / hold the port / drop it / fail) x callee exit (stop/kill/drain landing anywhere by schedule) x timeout relation (d<T, d=T, d>T, T=0, none), multi_call over 3 callees, call_and_forward; deviation-bounded DFS over task-level schedules with the virtual clock (same-instant timer ties are explored); oracle: Success(v) only with the value the callee sent on that call's own port, every call returns (a stuck caller is a scheduler-proved hang), completion time <= T and = T for Timeout, multi_call results in request order, forward delivered exactly once iff the call succeeded; non-trivial = execution with >= 1 branching decision".into(),
+        rule: "1-3 concurrent callers x callee behaviour (reply now / after d / from a spawned task / hold the port / drop it / fail) x callee exit (stop / kill / drain landing anywhere by schedule, and stop-then-kill / drain-then-kill against a handler that never returns) x timeout relation (d<T, d=T, d>T, T=0, none), multi_call over 3 callees, call_and_forward; deviation-bounded DFS over task-level schedules with the virtual clock (same-instant timer ties are explored); oracle: Success(v) only with the value the callee sent on that call's own port, every call returns (a stuck caller is a scheduler-proved hang), completion time <= T and = T for Timeout, multi_call results in request order, forward delivered exactly once iff the call succeeded; non-trivial = execution with >= 1 branching decision".into(),
         assumptions: vec![
             "task granularity; computation takes zero virtual time".into(),
         ],
